@@ -1,12 +1,14 @@
 """Pool: same local names as m_same2, different namespace; `Dup` has the same qualified name in both."""
 from dataclasses import dataclass, field
+
+from sim.pool.base import StableHashMeta
 from typing import Optional
 
 __NAMESPACE__ = "urn:s1"
 
 
 @dataclass
-class Thing:
+class Thing(metaclass=StableHashMeta):
     class Meta:
         name = "thing"
         namespace = "urn:s1"
@@ -16,7 +18,7 @@ class Thing:
 
 
 @dataclass
-class Dup:
+class Dup(metaclass=StableHashMeta):
     class Meta:
         name = "dup"
         namespace = "urn:dup"
